@@ -92,6 +92,13 @@ func c20Schema(p *prng.R) (*tspace.Schema, string) {
 				if b.RefTable != "" {
 					b.RefTable = tmap[b.RefTable]
 				}
+				if len(b.Enum) > 0 && b.Type == "integer" && p.Chance(1, 2) {
+					// numbers and their opposites: the constant names must stay distinct
+					b.Enum = [][]interface{}{{-1, 0, 1}, {-5, 5, 10, -10}}[p.Intn(2)]
+				}
+				if len(b.Enum) > 0 && b.Type == "real" && p.Chance(1, 2) {
+					b.Enum = [][]interface{}{{-0.5, 0.5, 1.5}, {-2.5, 0.0, 2.5}}[p.Intn(2)]
+				}
 				if len(b.Enum) > 0 && b.Type == "string" {
 					switch x := p.Intn(12); {
 					case x == 0:
